@@ -19,6 +19,7 @@ from vfw.cells import Cell
 from vfw import loader
 from vfw.vt import world as vt
 from vfw.vt import transform, stubs, simloop
+from harness import c14 as C14
 
 LAST_INFO = None
 RAW = None
@@ -392,6 +393,10 @@ def cells(prop, tier):
                                 pre=['0 <= lifeA <= 2 and 0 <= cancel_who <= 2 and 0 <= cancel_at <= 4 and 0 <= prio_idx <= 1'],
                                 body='H.scen(%r, %d, %d, %d, %d, lifeA, 0, prio_idx, 0, 0, 2, 2, cancel_who, cancel_at, %r)' % (prop, dA, dB, dC, dur, ut),
                                 tier=q, timeout=600, family=lp, weight=2))
+    if prop == 'C06':
+        # a caller-supplied mapping that loses entries between two of the wrapper's own operations: never a bookkeeping exception
+        out.append(Cell(name='c06_evicting_mapping', sig='a: int, b: int, n: int', pre=['1 <= n <= 14'], body='H.C14.scen_evict_during(a, b, n)',
+                        tier=q, timeout=170, family=lp))
     if prop == 'C01':
         out.append(Cell(name='c01_custom_map_g1', sig='lifeA: int, failmask: int, prio_idx: int, p1: int',
                         pre=['0 <= lifeA <= 2 and 0 <= failmask <= 1 and 0 <= prio_idx <= 1 and 0 <= p1 <= 140'],
